@@ -6,27 +6,45 @@ CFG = {
     "required_theorems": ["RpmVerif.C09.fromEntries_valid", "RpmVerif.C09.slots_nonempty", "RpmVerif.C09.builder_records_nonempty",
                           "RpmVerif.C09.builder_tags_legal", "RpmVerif.C09.builder_records_ok", "RpmVerif.C09.build_header_valid",
                           "RpmVerif.C09.sign_clear_valid", "RpmVerif.C09.sign_clear_valid_discharged", "RpmVerif.C09.sigsOk_of_build", "RpmVerif.C09.lead_valid", "RpmVerif.C09.sigPadding_written",
-                          "RpmVerif.C09.rpmlib_declared", "RpmVerif.C09.build_rpmlib_valid",
+                          "RpmVerif.C09.rpmlib_declared", "RpmVerif.C09.build_struct_features_declared", "RpmVerif.C09.build_rpmlib_valid",
+                          "RpmVerif.C09.allRequires_cases", "RpmVerif.C09.contentDeps_clean", "RpmVerif.C09.content_declared", "RpmVerif.C09.name_mem_pushFeature",
+                          "RpmVerif.C09.versionHas_of_header", "RpmVerif.C09.usesRichDeps_of_header", "RpmVerif.C09.usesInterpArgs_of_header",
+                          "RpmVerif.C09.evrHasChar_built", "RpmVerif.C09.hasRichDep_built", "RpmVerif.C09.hasInterpArgs_built",
+                          "RpmVerif.C09.slots_types", "RpmVerif.C09.build_tagtypes_valid", "RpmVerif.C09.asset_tag_types_agree",
+                          "RpmVerif.C09.build_flags_valid", "RpmVerif.C09.sig_limits_valid", "RpmVerif.C09.history_foreign_valid",
+                          "RpmVerif.C09.fPkg_foreign_valid", "RpmVerif.C09.plus_field_rejected",
                           "RpmVerif.C09.cpioCheck_archiveOf", "RpmVerif.C09.cpioCheck_stripped", "RpmVerif.C09.headerFiles_built",
                           "RpmVerif.C09.payload_valid_std", "RpmVerif.C09.payload_valid_large", "RpmVerif.C09.compressor_magic_valid",
                           "RpmVerif.C09.build_valid", "RpmVerif.C09.history_valid", "RpmVerif.C09.count_zero_rejected", "RpmVerif.C09.xz_undeclared_rejected"],
     "trivial_branches": [],
     "rule": "the validator of Spec/RpmValid.lean (a transcription of rpm's hdrblobVerifyRegion / hdrblobVerifyInfo, lead, cpio and rpmlib() rules; "
             "each rule with a stable name: lead, intro-sizes, region, tags-ascending, type, count-zero, alignment, string-term, range, overlap, "
-            "sig-padding, compressor-magic, rpmlib, cpio-entry, cpio-order, cpio-trailer) run by the Lean driver on the BYTES of every package the real "
+            "sig-limits (il <= 32, dl <= 64 MiB in the signature header), tag-type (hdrchkTagType against a transcription of rpm's tag table, main header only), "
+            "sig-padding, compressor-magic, payload-flags, rpmlib, cpio-entry, cpio-order, cpio-trailer — the cpio rules through the Spec's OWN newc reader "
+            "(a transcription of rpmcpioHeaderRead: 13 fields of exactly eight hexadecimal digits, 1 <= namesize <= 4096, NUL-terminated name, 4-byte padding; "
+            "not the model of rpm-rs' reader) — and, judged last, rpmlib-tilde / rpmlib-caret / rpmlib-rich / rpmlib-interp-args (the rpmlib() features "
+            "rpmbuild derives from the content of dependencies and scriptlets: build/pack.c haveCharInDep / haveRichDep, build/parseScript.c)) run by the Lean driver on the BYTES of every package the real "
             "code emits: (1) seeded builder configurations (c06::gen_cfg: every compression type and level, all nine scriptlets incl. empty interpreter "
             "lists, capabilities, 0..6 files of 0..4096 bytes at depth 0..4, '/'-, './'- and doubled-separator destinations, all dependency kinds, "
             "changelogs), a fifth of them in large-file mode (rpm_verif threshold hook), a third built with build_and_sign (RSA 4096 / Ed25519 / ECDSA "
             "P-256 keys of the repo) and / or followed by a history over {clear_signatures, sign, write+re-parse}; (2) ten non-normalised destinations "
             "in standard and large-file form; (3) the past witnesses in corpus/C09; (4) every rpm-built package in /repo/test_assets as it is and after "
             "ten sign / clear histories (op validfile: header rules, padding, compressor magic and rpmlib rule in full; archive-vs-header restricted "
-            "to what rpm guarantees for foreign packages: %ghost files may be absent, hard-link sets, source packages without './' prefix). "
+            "to what rpm guarantees for foreign packages: %ghost files may be absent, hard-link sets, source packages without './' prefix); "
+            "(5) op validhand09: C10's four hand-made start packages (latin1, noncanon, swapped, extratag) and `gap` (slack bytes between two data items) as they are "
+            "and after seven sign / clear histories — judged when the START is ForeignValid (latin1, gap), dontcare with the broken rule in the label otherwise; "
+            "(6) a grid of content-feature configurations (c09::gen_content: 4 versions with / without '~' '^' x 10 dependency sets incl. rich dependencies of six kinds "
+            "and a provide NAMED like one x 6 scriptlet sets incl. interpreters with 1 / 2 / 3 words, each also with the matching rpmlib() requirements written by "
+            "the caller — all of them, or all but one). "
             "The payload is decompressed by the harness with the codec crates directly. Non-trivial = every case; distinct = distinct request lines.",
     "exhaustive": False,
     "shards": {"quick": 4, "thorough": 16},
     "shrink": False,
     "trusted_base": ["my transcription of rpm's loader rules (lib/header.c hdrblobVerifyRegion / hdrblobVerifyInfo, rpmlead.c, cpio.c, rpmlib() feature table) — "
                      "no rpm binary in the sandbox; cross-checked only by: all rpm-built asset packages are judged valid",
+                     "my transcription of the type annotations of rpm's lib/rpmtag.h (Spec/RpmTagTypes.lean, 175 tags; unknown tags are permitted as rpm permits them) — cross-checked by "
+                     "asset_tag_types_agree against the pairs scraped from the rpm-built assets (tools/gen/rpm_asset_tagtypes.py), and of build/pack.c / build/parseScript.c (which "
+                     "content makes rpmbuild add rpmlib(TildeInVersions|CaretInVersions|RichDependencies|ScriptletInterpreterArgs))",
                      "compressors (flate2, zstd, liblzma, bzip2): the harness decompresses with the crates directly; the theorems assume CodecMagic "
                      "(a compressed stream starts with its format's magic; 'none' leaves the archive unchanged)",
                      "pgp crate: a produced signature is non-empty, its base64 text is ASCII (hypothesis SigsOk)",
@@ -35,7 +53,15 @@ CFG = {
         "valid configuration (CfgOk): C06.Valid (NUL-free valid UTF-8 strings, integers in range), header store < 256 MiB, each file's size field = content "
         "length, cpio path shorter than 4096 bytes and not 'TRAILER!!!', fewer than 2^32-1 files",
         "the rpm rules are transcribed as stated at the top of Spec/RpmValid.lean (tag >= 100 also in signature headers, type 1..9, data ends before the region trailer)"],
-    "level_text": "Theorems for ALL record lists / configurations / signature lists (no size bound): from_entries over pairwise distinct legal tags and canonical "
+    "level_text": "Session 5 (AUDIT2 follow-up 8) — spec closer to rpm: slots_types / build_tagtypes_valid (every one of the 102 slots carries the data type of rpm's tag table; "
+                  "asset_tag_types_agree ties the transcribed table to the (tag, type) pairs scraped from the rpm-built asset packages), sig_limits_valid (il <= 32, dl <= 64 MiB), "
+                  "build_flags_valid, the cpio theorems re-proved against the Spec's own newc reader (Lemmas/RpmCpio: readEntry_intoHeader / _writeEntry / _strippedHeader; "
+                  "plus_field_rejected: a '+000000b' field is taken by rpm-rs' reader model and rejected by the Spec), history_foreign_valid (sign / clear preserve ForeignValid; "
+                  "hypotheses satisfiable: fPkg_foreign_valid). RPMLIB CLAUSE: build_rpmlib_valid — for EVERY configuration the built header declares all thirteen rpmlib() features it uses; the four content "
+                  "features (TildeInVersions, CaretInVersions, RichDependencies, ScriptletInterpreterArgs) since the fix of builder.rs (model: Bld.versionHas / usesRichDeps / "
+                  "usesInterpArgs / pushFeature; content_declared; rpm's three tests on the built header imply the builder's own: versionHas_of_header, usesRichDeps_of_header, "
+                  "usesInterpArgs_of_header, because what the builder adds uses none of the features: allRequires_cases, contentDeps_clean). Before that fix the clause was refuted "
+                  "in general form (git history of Props/C09.lean: tilde_undeclared, …). Earlier text: Theorems for ALL record lists / configurations / signature lists (no size bound): from_entries over pairwise distinct legal tags and canonical "
                   "non-empty data yields a header satisfying every header rule (region entry and trailer, strictly ascending tags via the stable sort, legal types, "
                   "counts >= 1, type alignment, sequential non-overlapping in-range data, terminated strings); every one of the builder's 102 record slots is non-empty "
                   "and carries a tag >= 100, so the main header of every valid configuration is valid; every signature header built by build / sign / build_and_sign / "
